@@ -20,6 +20,7 @@ logging.disable(logging.CRITICAL)
 from c14_fake import make_raw, make_results, tiny_logit, tiny_panel, snapshot, exc_info, f2h, time_limit  # noqa: E402
 
 T0 = 10 ** 18  # 2001-09-09, in ns
+TIMEOUTS = [0]
 
 
 def age(path='.'):
@@ -127,11 +128,16 @@ def run_case(case):
     for op in case['ops']:
         step = {'op': op, 'ret': None, 'exc': None}
         try:
-            with time_limit(60):
+            with time_limit(30):
                 step['ret'] = do(op)
         except Exception as e:  # noqa
             step['exc'] = exc_info(e)
+            if isinstance(e, TimeoutError):
+                TIMEOUTS[0] += 1
         step['snap'] = snapshot()
+        if TIMEOUTS[0] >= 3:
+            out['steps'].append(step)
+            break
         age()
         out['steps'].append(step)
     return out
@@ -142,6 +148,9 @@ def main():
     root = os.getcwd()
     res = []
     for c in cases:
+        if TIMEOUTS[0] >= 3:
+            res.append({'fatal': {'exc': 'TimeoutError', 'msg': 'skipped after 3 timeouts'}, 'steps': [], 'init': {}})
+            continue
         d = tempfile.mkdtemp(dir=root)
         os.chdir(d)
         try:
